@@ -24,6 +24,8 @@ package quic
 //
 // Harnesses: VerifC19_transfer (windows larger than the data), VerifC19_window (stream window and write buffer bind),
 // VerifC19_connwin (connection window binds; loss may be declared at any time; lost datagrams may never arrive).
+// zz_verif_c19b_test.go: VerifC19_credit / VerifC19_creditconn (windows of 16..24 bytes, free read sizes incl. the
+// fast path, faulty RETURN path for MAX_STREAM_DATA / MAX_DATA; seeded C19-C, C19-D).
 //   seeded C19-B: outUnlockNoQueue `outunsent.min() < outmaxsent` -> `outunsent.max() < outmaxsent` (a stream with lost
 //     bytes AND never-sent bytes waits on queueData for connection credit that only the lost bytes can free)
 //     caught by VerifC19_connwin "eventual delivery"
